@@ -38,7 +38,9 @@ def build(sc):
         o = lensgen.build(copy.deepcopy(sc['lens']))   # the geometry keeps the caller's coefficient list
         for (src, attr, tgt, scale, off) in sc.get('pickups', []):
             o.pickups.add(src, attr, tgt, scale=scale, offset=off)
-        if sc.get('pickups'):
+        for (ty, idx, h) in sc.get('solves', []):
+            o.solves.add(ty, idx, h)
+        if sc.get('pickups') or sc.get('solves'):
             o.update()
     return o
 
@@ -97,6 +99,88 @@ def snap_diff(a, b, tol=1e-9):
     return d
 
 
+def dict_of(o):
+    try:
+        return json.loads(json.dumps(o.to_dict(), default=lambda x: float(np.ravel(x)[0])))
+    except Exception as e:   # noqa
+        return {'__to_dict_error__': type(e).__name__}
+
+
+def dict_diff(a, b, path='', tol=1e-9, out=None):
+    """paths at which two to_dict() trees differ (numbers compared with tolerance)"""
+    out = [] if out is None else out
+    if len(out) > 20:
+        return out
+    if isinstance(a, dict) and isinstance(b, dict):
+        for k in sorted(set(a) | set(b), key=str):
+            if k not in a or k not in b:
+                out.append(path + '/' + str(k))
+            else:
+                dict_diff(a[k], b[k], path + '/' + str(k), tol, out)
+    elif isinstance(a, list) and isinstance(b, list):
+        if len(a) != len(b):
+            out.append(path + '[len]')
+        else:
+            for i, (x, y) in enumerate(zip(a, b)):
+                dict_diff(x, y, f'{path}[{i}]', tol, out)
+    elif isinstance(a, (int, float)) and isinstance(b, (int, float)) and not isinstance(a, bool) and not isinstance(b, bool):
+        if not close(float(a), float(b), tol):
+            out.append(path)
+    elif a != b:
+        out.append(path)
+    return out
+
+
+def raw_set(o, h, v):
+    """write one coordinate through the Optic API only (no Variable objects)"""
+    t, kw = h['type'], h['kw']
+    i = kw['surface_number']
+    if t == 'radius':
+        o.set_radius(v, i)
+    elif t == 'conic':
+        o.set_conic(v, i)
+    elif t == 'thickness':
+        o.set_thickness(v, i)
+    elif t == 'index':
+        o.set_index(v, i)
+    elif t == 'asphere_coeff':
+        o.set_asphere_coeff(v, i, kw['coeff_number'])
+    elif t == 'tilt':
+        setattr(o.surface_group.surfaces[i].geometry.cs, 'r' + kw['axis'], v)
+    elif t == 'decenter':
+        setattr(o.surface_group.surfaces[i].geometry.cs, kw['axis'], v)
+    else:
+        raise ValueError(t)
+
+
+def bounded_reference(sc, which, values, targets):
+    """independent compensation: fresh lens, perturbation written through Optic.set_*, one compensator found by a
+    bounded scalar minimisation (scipy minimize_scalar) of sum (operand - target)^2 inside the DECLARED limits.
+    Uses neither Variable (so not Variable.bounds / scaling) nor the optimisation / tolerancing classes."""
+    from scipy.optimize import minimize_scalar
+    o = build(sc)
+    ops = add_operands(None, sc, o, targets)
+    c = sc['comps'][0]
+    b = c.get('bounds', {})
+    lo, hi = sc['ref_search']
+    if b.get('min_val') is not None:
+        lo = b['min_val']
+    if b.get('max_val') is not None:
+        hi = b['max_val']
+    with quiet():
+        for j, v in zip(which, values):
+            raw_set(o, sc['perts'][j], v)
+
+        def merit(x):
+            raw_set(o, c, float(x))
+            o.update()
+            return float(sum((f(op.value) - tg) ** 2 for op, tg in zip(ops, targets)))
+
+        r = minimize_scalar(merit, bounds=(lo, hi), method='bounded', options={'xatol': 1e-9})
+        m = merit(r.x)
+        return {'x': float(r.x), 'merit': m, 'ops': [f(op.value) for op in ops], 'lo': lo, 'hi': hi}
+
+
 def mk_sampler(sp):
     k = sp[0]
     if k == 'scalar':
@@ -129,7 +213,7 @@ def setup(sc):
     for p in sc['perts']:
         t.add_perturbation(p['type'], mk_sampler(p['sampler']), **p['kw'])
     for c in sc['comps']:
-        t.add_compensator(c['type'], **c['kw'])
+        t.add_compensator(c['type'], **c['kw'], **c.get('bounds', {}))
     return o, t
 
 
@@ -150,6 +234,7 @@ def run_analysis(sc, observe=True):
     WS = sc['WS']
     gl = {}
     res['nominal'] = snapshot(o, WS, gl)
+    d_nom = dict_of(o)
     res['ops_nominal'] = [f(v) for v in t.evaluate()]
     res['targets'] = [f(op.target) for op in t.operands]
     res['pert_init'] = [f(p.variable.initial_value) for p in t.perturbations]
@@ -197,9 +282,12 @@ def run_analysis(sc, observe=True):
         if orig_apply is not None:
             optmod.OptimizerGeneric._apply_solution = orig_apply
     res['after_run'] = snapshot(o, WS, gl)
+    res['dict_diff_run'] = dict_diff(d_nom, dict_of(o))
     with quiet():
         t.reset()
     res['after_reset'] = snapshot(o, WS, gl)
+    res['dict_diff_reset'] = dict_diff(d_nom, dict_of(o))
+    res['to_dict_ok'] = '__to_dict_error__' not in d_nom
     df = an.get_results()
     which = plan_which(sc)
     names = an.operand_names
@@ -250,7 +338,7 @@ def fresh_eval(sc, which, values, targets, variant=()):
         if sc['comps']:
             co = CompensatorOptimizer(method=sc.get('method', 'generic'), tol=sc.get('tol', 1e-5))
             for c in sc['comps']:
-                co.add_variable(o, c['type'], **c['kw'])
+                co.add_variable(o, c['type'], **c['kw'], **c.get('bounds', {}))
             co.operands = ops
             co.run()
         vals = [f(op.value) for op in ops]
@@ -317,6 +405,8 @@ for sc in job['scenarios']:
                         break
             orc.append(e)
         r['oracle'] = orc
+        if sc.get('bounded_ref'):
+            r['bref'] = [bounded_reference(sc, tr['which'], tr['values'], res['targets']) for tr in res['trials']]
         r['diff_run'] = snap_diff(res['nominal'], res['after_run'])
         r['diff_reset'] = snap_diff(res['nominal'], res['after_reset'])
         r['stream'] = independent_stream(sc)
